@@ -155,6 +155,32 @@ def run(ctx):
                 if second_tls and getattr(srv2, "auth_attempt", (None,))[0] != "LOGIN":
                     viol.append({"history": hist, "what": "second connection: mechanism not taken from its own post-TLS capabilities: %r" % (getattr(srv2, "auth_attempt", None),)})
 
+    # 2c. a reply that is merely slow (one read times out, the data arrives afterwards): whatever the client makes of the
+    #     time-out, a late reply must never be taken for the answer to a later command — in particular not for the answer to
+    #     AUTHENTICATE.  Judged on the real code against the reference server (the Lean client model has no clock).
+    for starttls in (True, False):
+        for late in ((0,), (1,), (2,), (0, 1), (1, 2)):
+            for pw_ok in (True, False):
+                for post in (None, b"LOGIN"):
+                    srv = refserver.RefServer(r, starttls=True, sasl=b"PLAIN", post_tls_sasl=post, users={b"user": b"pw" if pw_ok else b"other"})
+                    s = msref.Session()
+                    out = s.connect(b"", [], "user", "pw", starttls=starttls, server=srv, late=late)
+                    hist = "connect(starttls=%s), server segments %r slow, password %s, post-TLS SASL %r" % (starttls, late, "right" if pw_ok else "wrong", post)
+                    outs = [out]
+                    for op, args in SCRIPT_OPS + [("capability", ())] + SCRIPT_OPS[:2]:
+                        outs.append(s.op(op, *args))
+                    evals += 1
+                    nontriv += 1
+                    probs = check_writes(s.wire.writes, starttls, srv.authed)
+                    if any("auth=b1" in o for o in outs) and not srv.authed:
+                        probs.append("Client.authenticated is set although the server never accepted the credentials")
+                    if "res=b1" in out and not srv.authed:
+                        probs.append("connect returned True although the server never accepted the credentials")
+                    if any("before authentication" in l for l in srv.log):
+                        probs.append("server saw a script command before authentication: %r" % srv.log)
+                    for p_ in probs:
+                        viol.append({"history": hist, "what": p_})
+
     # 3. plaintext injected behind the STARTTLS reply must not be taken as post-TLS capabilities
     G = b'"IMPLEMENTATION" "x"\r\n"SASL" "PLAIN"\r\n"STARTTLS"\r\nOK\r\n'
     inj = b'OK "Begin TLS"\r\n"SASL" "LOGIN"\r\nOK "injected"\r\n'
